@@ -91,7 +91,24 @@ impl Shared {
     }
 }
 
-pub struct PbDfs(pub Arc<Mutex<Shared>>);
+/// One unit of exploration: all schedules of `body` within `cfg`.
+pub struct Job {
+    pub cfg: Cfg,
+    pub body: Arc<dyn Fn() + Send + Sync>,
+    /// called for every execution that did not run to completion; `false` stops this job
+    pub on_abnormal: Box<dyn FnMut(Abnormal, Vec<u16>) -> bool + Send>,
+    pub on_done: Box<dyn FnOnce(Outcome) + Send>,
+}
+
+/// A session runs many jobs on one long-lived shuttle `Runner` (so that the
+/// coroutine stacks are allocated once per OS thread).
+pub struct Session {
+    dfs: Option<Shared>,
+    job: Option<Job>,
+    source: Box<dyn FnMut() -> Option<Job> + Send>,
+}
+
+pub struct PbDfs(pub Arc<Mutex<Session>>);
 
 fn sig_of(ids: &[usize]) -> u64 {
     let mut h: u64 = 0xcbf29ce484222325;
@@ -173,17 +190,35 @@ impl Shared {
     }
 }
 
-impl Scheduler for PbDfs {
-    fn new_execution(&mut self) -> Option<Schedule> {
-        let mut s = self.0.lock().unwrap();
+impl Shared {
+    fn new(cfg: &Cfg) -> Shared {
+        Shared {
+            bound: cfg.bound,
+            all_points: cfg.all_points,
+            stack: Vec::new(),
+            cursor: 0,
+            cur_cost: 0,
+            started: false,
+            stop: false,
+            max_execs: cfg.max_execs,
+            deadline: cfg.deadline,
+            fixed: cfg.fixed.clone(),
+            stats: Stats::default(),
+            divergence: None,
+        }
+    }
+
+    /// prepare the next execution of this job; false = job exhausted
+    fn advance(&mut self) -> bool {
+        let s = self;
         if s.stop || s.divergence.is_some() {
-            return None;
+            return false;
         }
         if !s.started {
             s.started = true;
         } else {
             if s.fixed.is_some() {
-                return None;
+                return false;
             }
             // the previous execution must have consumed its whole prefix
             if s.cursor < s.stack.len() {
@@ -192,13 +227,13 @@ impl Scheduler for PbDfs {
                     s.cursor,
                     s.stack.len()
                 ));
-                return None;
+                return false;
             }
             // backtrack
             loop {
                 let bound = s.bound;
                 match s.stack.last_mut() {
-                    None => return None,
+                    None => return false,
                     Some(f) => {
                         let can = (f.chosen as usize + 1) < f.n as usize
                             && (!f.preemptible || f.cost_before < bound);
@@ -213,18 +248,43 @@ impl Scheduler for PbDfs {
                 }
             }
             if s.stats.executions >= s.max_execs
-                || s.deadline.map_or(false, |d| Instant::now() > d)
+                || ((s.stats.executions & 15) == 0 && s.deadline.map_or(false, |d| Instant::now() > d))
             {
                 s.stats.capped = true;
                 s.stop = true;
-                return None;
+                return false;
             }
         }
         s.cursor = 0;
         s.cur_cost = 0;
         s.stats.executions += 1;
-        MARK.with(|m| m.set(false));
-        Some(Schedule::new(0))
+        true
+    }
+}
+
+impl Scheduler for PbDfs {
+    fn new_execution(&mut self) -> Option<Schedule> {
+        let mut guard = self.0.lock().unwrap();
+        let s = &mut *guard;
+        loop {
+            if let Some(dfs) = s.dfs.as_mut() {
+                if dfs.advance() {
+                    MARK.with(|m| m.set(false));
+                    return Some(Schedule::new(0));
+                }
+                let dfs = s.dfs.take().unwrap();
+                if let Some(job) = s.job.take() {
+                    (job.on_done)(Outcome { stats: dfs.stats, divergence: dfs.divergence });
+                }
+            }
+            match (s.source)() {
+                Some(job) => {
+                    s.dfs = Some(Shared::new(&job.cfg));
+                    s.job = Some(job);
+                }
+                None => return None,
+            }
+        }
     }
 
     fn next_task(
@@ -234,7 +294,8 @@ impl Scheduler for PbDfs {
         _is_yielding: bool,
     ) -> Option<TaskId> {
         let marked = MARK.with(|m| m.replace(false));
-        let mut s = self.0.lock().unwrap();
+        let mut guard = self.0.lock().unwrap();
+        let s = guard.dfs.as_mut()?;
         // ignore tasks that are only offered for a spurious wake-up
         let mut ids: Vec<(usize, TaskId)> = runnable_tasks
             .iter()
@@ -242,9 +303,6 @@ impl Scheduler for PbDfs {
             .map(|t| (usize::from(t.id()), t.id()))
             .collect();
         if ids.is_empty() {
-            // only spurious wake-up candidates: treat as no task (deadlock is
-            // reported by the runtime when nothing is runnable; here we must
-            // pick one to let the runtime make progress)
             return runnable_tasks.first().map(|t| t.id());
         }
         ids.sort_by_key(|x| x.0);
@@ -267,8 +325,8 @@ impl Scheduler for PbDfs {
     }
 
     fn next_u64(&mut self) -> u64 {
-        let mut s = self.0.lock().unwrap();
-        match s.choose(2, false, 0xE17) {
+        let mut guard = self.0.lock().unwrap();
+        match guard.dfs.as_mut().and_then(|s| s.choose(2, false, 0xE17)) {
             Some(c) => c as u64,
             None => 0,
         }
@@ -348,83 +406,90 @@ fn shuttle_config() -> shuttle::Config {
     c
 }
 
-/// Explore all schedules of `body` within `cfg`.  `body` is run once per
-/// execution as the main task.  `on_abnormal` is called for every execution
-/// that did not run to completion (deadlock / a task that ended by panicking),
-/// with the choice vector of that execution; returning `false` stops the
-/// exploration.
-pub fn explore<F, G>(cfg: &Cfg, body: F, mut on_abnormal: G) -> Outcome
-where
-    F: Fn() + Send + Sync + 'static,
-    G: FnMut(Abnormal, Vec<u16>) -> bool,
-{
-    let shared = Arc::new(Mutex::new(Shared {
-        bound: cfg.bound,
-        all_points: cfg.all_points,
-        stack: Vec::new(),
-        cursor: 0,
-        cur_cost: 0,
-        started: false,
-        stop: false,
-        max_execs: cfg.max_execs,
-        deadline: cfg.deadline,
-        fixed: cfg.fixed.clone(),
-        stats: Stats::default(),
-        divergence: None,
-    }));
-    let body = Arc::new(body);
+/// Run jobs from `source` until it is exhausted, on one long-lived runner.
+pub fn run_jobs(source: Box<dyn FnMut() -> Option<Job> + Send>) {
+    let session = Arc::new(Mutex::new(Session { dfs: None, job: None, source }));
     let was_controlled = rayon::verif::controlled();
-    rayon::verif::set_controlled(true);
     loop {
-        let sh = shared.clone();
-        let b = body.clone();
-        let sh2 = shared.clone();
+        rayon::verif::set_controlled(true);
+        let sh = session.clone();
+        let sh2 = session.clone();
+        CURRENT.with(|c| *c.borrow_mut() = Some(session.clone()));
         let r = catch_unwind(AssertUnwindSafe(move || {
             let runner = shuttle::Runner::new(PbDfs(sh), shuttle_config());
             runner.run(move || {
                 static HOOK: std::sync::Once = std::sync::Once::new();
                 HOOK.call_once(install_quiet_hook);
                 rayon::verif::reset_execution();
-                CURRENT.with(|c| *c.borrow_mut() = Some(sh2.clone()));
-                b();
+                rayon::verif::set_controlled(true);
+                let b = sh2.lock().unwrap().job.as_ref().map(|j| j.body.clone());
+                if let Some(b) = b {
+                    b();
+                }
             })
         }));
         match r {
             Ok(_) => break,
             Err(p) => {
                 let msg = payload_str(&*p);
-                let choices = {
-                    let mut s = shared.lock().unwrap();
-                    // the execution was cut short: what was consumed is the schedule
-                    let c = s.choices();
-                    let cur = s.cursor;
-                    s.stack.truncate(cur);
-                    c
+                let mut s = session.lock().unwrap();
+                let s = &mut *s;
+                let (choices, fixed) = match s.dfs.as_mut() {
+                    Some(d) => {
+                        let c = d.choices();
+                        let cur = d.cursor;
+                        d.stack.truncate(cur);
+                        (c, d.fixed.is_some())
+                    }
+                    None => (vec![], false),
                 };
                 let ab = if msg.starts_with("deadlock!") {
-                    shared.lock().unwrap().stats.deadlocks += 1;
+                    if let Some(d) = s.dfs.as_mut() {
+                        d.stats.deadlocks += 1;
+                    }
                     Abnormal::Deadlock(msg)
                 } else {
                     Abnormal::Panic(format!("{} @ {}", msg, last_panic_location()))
                 };
-                let fixed = shared.lock().unwrap().fixed.is_some();
-                if !on_abnormal(ab, choices) || fixed {
-                    break;
+                let cont = match s.job.as_mut() {
+                    Some(j) => (j.on_abnormal)(ab, choices),
+                    None => false,
+                };
+                if !cont || fixed {
+                    if let Some(d) = s.dfs.as_mut() {
+                        d.stop = true;
+                    }
                 }
             }
         }
     }
     rayon::verif::set_controlled(was_controlled);
     CURRENT.with(|c| *c.borrow_mut() = None);
-    let s = shared.lock().unwrap();
-    Outcome {
-        stats: s.stats.clone(),
-        divergence: s.divergence.clone(),
-    }
+}
+
+/// Explore all schedules of `body` within `cfg` (single job).  `on_abnormal`
+/// is called for every execution that did not run to completion (deadlock / a
+/// task that ended by panicking); returning `false` stops the exploration.
+pub fn explore<F, G>(cfg: &Cfg, body: F, on_abnormal: G) -> Outcome
+where
+    F: Fn() + Send + Sync + 'static,
+    G: FnMut(Abnormal, Vec<u16>) -> bool + Send + 'static,
+{
+    let result: Arc<Mutex<Option<Outcome>>> = Arc::new(Mutex::new(None));
+    let r2 = result.clone();
+    let mut job = Some(Job {
+        cfg: cfg.clone(),
+        body: Arc::new(body),
+        on_abnormal: Box::new(on_abnormal),
+        on_done: Box::new(move |o| *r2.lock().unwrap() = Some(o)),
+    });
+    run_jobs(Box::new(move || job.take()));
+    let o = result.lock().unwrap().take();
+    o.unwrap_or(Outcome { stats: Stats::default(), divergence: Some("job did not finish".into()) })
 }
 
 std::thread_local! {
-    static CURRENT: std::cell::RefCell<Option<Arc<Mutex<Shared>>>> = const { std::cell::RefCell::new(None) };
+    static CURRENT: std::cell::RefCell<Option<Arc<Mutex<Session>>>> = const { std::cell::RefCell::new(None) };
 }
 
 /// Choice vector of the execution in progress (for replay files).
@@ -432,7 +497,7 @@ pub fn current_choices() -> Vec<u16> {
     CURRENT.with(|c| {
         c.borrow()
             .as_ref()
-            .map(|s| s.lock().unwrap().choices())
+            .and_then(|s| s.lock().unwrap().dfs.as_ref().map(|d| d.choices()))
             .unwrap_or_default()
     })
 }
@@ -442,7 +507,7 @@ pub fn current_preemptions() -> u32 {
     CURRENT.with(|c| {
         c.borrow()
             .as_ref()
-            .map(|s| s.lock().unwrap().preemptions())
+            .and_then(|s| s.lock().unwrap().dfs.as_ref().map(|d| d.preemptions()))
             .unwrap_or(0)
     })
 }
